@@ -15,14 +15,30 @@ namespace OpenVolumeMesh::IO::detail { void read(Decoder &, ArraySpan &); }  // 
 #endif
 
 // The reader's decoders own a vector allocated with EXACTLY n bytes (BinaryIStream::make_decoder: std::vector<uint8_t> vec(n)).
-// `bytes` is built with spare capacity; passing it BY COPY to Decoder(std::vector<uint8_t>) allocates exactly size() bytes,
-// so a read past size() is a read past the allocation, as in the reader.
-#define SYM_BYTES(bytes, len, MAX)                                                         \
-  unsigned len = v_nondet_below((MAX) + 1);                                                \
-  std::vector<uint8_t> bytes; bytes.reserve(MAX);                                          \
-  for (unsigned i_ = 0; i_ < (MAX); ++i_) if (i_ < len) bytes.push_back(v_nondet_u8());
+// The harness does the same: std::vector<uint8_t>(g_raw, g_raw + len) allocates exactly len bytes and is moved into the
+// Decoder, so a read past the payload is a read past the allocation, as in the reader.
+// The LENGTH is symbolic through a selector dispatch (sel = nondet <= MAX; one noinline case per length with a literal
+// constant): the symbolic executor forks on the length, every allocation has a constant size, the byte VALUES stay free.
+#include <utility>
+template <template <unsigned> class F, unsigned... Is>
+static inline void dispatch_seq(unsigned sel, std::integer_sequence<unsigned, Is...>) { ((sel == Is ? (F<Is>::run(), 0) : 0), ...); }
+static uint8_t g_raw[64];  // the symbolic bytes (plain global array: reads at constant offsets fold)
+// lengths LO..HI in chunks of CH per solver query: shard parameter v_param(0) = chunk index (0 when CH = HI-LO+1)
+#define LEN_HARNESS_C(name, LO, HI, CH)                                                                             \
+  static void body_##name(unsigned len);                                                                            \
+  template <unsigned I> struct Case_##name { static __attribute__((noinline)) void run() {                          \
+    unsigned len = (LO) + v_param(0) * (CH) + I; if (len <= (HI)) body_##name(len); } };                            \
+  extern "C" void harness_##name() {                                                                                \
+    for (unsigned i_ = 0; i_ < (HI); ++i_) g_raw[i_] = v_nondet_u8();                                               \
+    unsigned sel = v_nondet_below(CH); v_assume((LO) + v_param(0) * (CH) + sel <= (HI));                            \
+    dispatch_seq<Case_##name>(sel, std::make_integer_sequence<unsigned, (CH)>{}); }                                 \
+  static void body_##name(unsigned len)
+#define LEN_HARNESS(name, MAX) LEN_HARNESS_C(name, 0, MAX, (MAX) + 1)
+// exactly `len` bytes on the heap, moved into the Decoder
+#define SYM_BYTES(bytes, len, MAX) const uint8_t *bytes = g_raw; std::vector<uint8_t> vec_(g_raw, g_raw + len);
+#define DECODER(dec) Decoder dec(std::move(vec_))
 
-static uint64_t le(const std::vector<uint8_t> &b, unsigned off, unsigned n) {  // reference little-endian read (format doc: "LSB first")
+static uint64_t le(const uint8_t *b, unsigned off, unsigned n) {  // reference little-endian read (format doc: "LSB first")
   uint64_t r = 0;
   for (unsigned k = 0; k < 8; ++k) if (k < n) r |= (uint64_t)b[off + k] << (8 * k);
   return r;
@@ -32,13 +48,14 @@ enum Outcome { OK = 0, PARSE_ERROR = 1, OTHER = 2 };
 #define RUN(out, stmt) do { out = OK; try { stmt; } catch (const parse_error &) { out = PARSE_ERROR; } catch (...) { out = OTHER; } } while (0)
 
 // ---- read(Decoder&, FileHeader&): reader = read_header(): stream_.make_decoder(48) then read(); need(48) is inside read().
-extern "C" void harness_file_header() {
+template <bool FULL> static void file_header_body(unsigned len) {
   SYM_BYTES(bytes, len, 48)
-  Decoder dec(bytes);
+  DECODER(dec);
   FileHeader h; bool ok = false; int out;
   RUN(out, ok = read(dec, h));
   V_ASSERT(out != OTHER);
-  if (len < 48) { V_ASSERT(out == PARSE_ERROR); v_witness("file header: short buffer -> parse_error"); return; }
+  if constexpr (!FULL) { V_ASSERT(out == PARSE_ERROR); V_ASSERT(dec.pos() == 0); v_witness("file header: short buffer -> parse_error"); return; }
+  else {
   // reference, from ovmb.ksy file_header
   bool magic_ok = bytes[0] == 'O' && bytes[1] == 'V' && bytes[2] == 'M' && bytes[3] == 'B' && bytes[4] == 0x0a && bytes[5] == 0x0d && bytes[6] == 0x0a && bytes[7] == 0xff;
   bool version_ok = bytes[9] == 1;
@@ -51,12 +68,15 @@ extern "C" void harness_file_header() {
   V_ASSERT(h.n_verts == le(bytes, 16, 8) && h.n_edges == le(bytes, 24, 8) && h.n_faces == le(bytes, 32, 8) && h.n_cells == le(bytes, 40, 8));
   V_ASSERT(dec.finished());
   v_witness("file header: accepted");
+  }
 }
+LEN_HARNESS_C(file_header_short, 0, 47, 8) { file_header_body<false>(len); }   // 6 shards: lengths 8c..8c+7 (< 48: need() must refuse)
+extern "C" void harness_file_header_full() { for (unsigned i = 0; i < 48; ++i) g_raw[i] = v_nondet_u8(); file_header_body<true>(48); }
 
 // ---- read(Decoder&, ChunkHeader&): reader = read_chunk(): stream_.make_decoder(16) then read().
-extern "C" void harness_chunk_header() {
+LEN_HARNESS(chunk_header, MAXLEN) {
   SYM_BYTES(bytes, len, MAXLEN)
-  Decoder dec(bytes);
+  DECODER(dec);
   ChunkHeader h; int out;
   RUN(out, read(dec, h));
   V_ASSERT(out != OTHER);
@@ -73,9 +93,9 @@ extern "C" void harness_chunk_header() {
 }
 
 // ---- read(Decoder&, ArraySpan&) / PropChunkHeader: reader = read_prop_chunk(chunk_reader): first call on the chunk payload.
-extern "C" void harness_prop_chunk_header() {
+LEN_HARNESS(prop_chunk_header, MAXLEN) {
   SYM_BYTES(bytes, len, MAXLEN)
-  Decoder dec(bytes);
+  DECODER(dec);
   PropChunkHeader h; int out;
   RUN(out, read(dec, h));
   V_ASSERT(out != OTHER);
@@ -84,9 +104,9 @@ extern "C" void harness_prop_chunk_header() {
   v_witness("prop chunk header: accepted");
 }
 
-extern "C" void harness_array_span() {
+LEN_HARNESS(array_span, MAXLEN) {
   SYM_BYTES(bytes, len, MAXLEN)
-  Decoder dec(bytes);
+  DECODER(dec);
   ArraySpan s; int out;
   RUN(out, read(dec, s));
   V_ASSERT(out != OTHER);
@@ -96,9 +116,9 @@ extern "C" void harness_array_span() {
 }
 
 // ---- VertexChunkHeader: reader = read_vertices_chunk(chunk_reader): first call on the chunk payload.
-extern "C" void harness_vertex_chunk_header() {
+LEN_HARNESS(vertex_chunk_header, MAXLEN) {
   SYM_BYTES(bytes, len, MAXLEN)
-  Decoder dec(bytes);
+  DECODER(dec);
   VertexChunkHeader h; int out;
   RUN(out, read(dec, h));
   V_ASSERT(out != OTHER);
@@ -112,9 +132,9 @@ extern "C" void harness_vertex_chunk_header() {
 
 // ---- TopoChunkHeader: reader = read_topo_chunk(chunk_reader): first call on the chunk payload.
 static bool int_enc_ok(uint8_t e) { return e == 0 || e == 1 || e == 2 || e == 4; }
-extern "C" void harness_topo_chunk_header() {
+LEN_HARNESS(topo_chunk_header, MAXLEN) {
   SYM_BYTES(bytes, len, MAXLEN)
-  Decoder dec(bytes);
+  DECODER(dec);
   TopoChunkHeader h; int out;
   RUN(out, read(dec, h));
   V_ASSERT(out != OTHER);
@@ -127,25 +147,26 @@ extern "C" void harness_topo_chunk_header() {
 }
 
 // ---- reserved<N>: only reached from the FileHeader / VertexChunkHeader read()s, after their need(); here directly after need(N).
-extern "C" void harness_reserved() {
+template <unsigned N> static void reserved_body(unsigned len) {
   SYM_BYTES(bytes, len, 8)
-  Decoder dec(bytes);
-  unsigned which = v_nondet_below(2);
-  int out; unsigned N = which ? 4 : 3;
-  RUN(out, { dec.need(N); if (which) dec.reserved<4>(); else dec.reserved<3>(); });
+  DECODER(dec);
+  int out;
+  RUN(out, { dec.need(N); dec.reserved<N>(); });
   V_ASSERT(out != OTHER);
   if (len < N) { V_ASSERT(out == PARSE_ERROR); v_witness("reserved: short -> parse_error"); return; }
   bool zero = true;
-  for (unsigned i = 0; i < 4; ++i) if (i < N && bytes[i] != 0) zero = false;
+  for (unsigned i = 0; i < N; ++i) if (bytes[i] != 0) zero = false;
   V_ASSERT((out == OK) == zero);
   if (out == OK) { V_ASSERT(dec.pos() == N); v_witness("reserved: zero bytes accepted"); } else v_witness("reserved: non-zero byte -> parse_error");
 }
+LEN_HARNESS(reserved3, 8) { reserved_body<3>(len); }
+LEN_HARNESS(reserved4, 8) { reserved_body<4>(len); }
 
 // ---- padding(n): reader = read_chunk(): stream_.make_decoder(header.padding_bytes).padding(header.padding_bytes)
 //      i.e. a decoder of exactly n bytes (make_decoder throws parse_error if the stream has fewer).
-extern "C" void harness_padding() {
+LEN_HARNESS(padding, MAXLEN) {
   SYM_BYTES(bytes, len, MAXLEN)
-  Decoder dec(bytes);
+  DECODER(dec);
   int out;
   RUN(out, dec.padding((uint8_t)len));
   V_ASSERT(out != OTHER);
@@ -156,9 +177,9 @@ extern "C" void harness_padding() {
 }
 
 // ---- readVec<uint32_t>: reader = read(Decoder&, PropertyInfo&) (three times); need() calls are inside readVec.
-extern "C" void harness_readvec() {
+LEN_HARNESS(readvec, MAXLEN) {
   SYM_BYTES(bytes, len, MAXLEN)
-  Decoder dec(bytes);
+  DECODER(dec);
   std::vector<uint8_t> v; int out;
   RUN(out, dec.readVec<uint32_t>(v));
   V_ASSERT(out != OTHER);
@@ -173,9 +194,9 @@ extern "C" void harness_readvec() {
 
 // ---- Decoder::read(std::string&) under its documented contract (caller did need(4) for the length word):
 //      the declared length is then checked by the function itself.
-extern "C" void harness_string_after_need() {
+LEN_HARNESS(string_after_need, MAXLEN) {
   SYM_BYTES(bytes, len, MAXLEN)
-  Decoder dec(bytes);
+  DECODER(dec);
   std::string s; int out;
   RUN(out, { dec.need(4); dec.read(s); });
   V_ASSERT(out != OTHER);
@@ -190,9 +211,9 @@ extern "C" void harness_string_after_need() {
 
 // ---- Decoder::read(std::string&) AS THE READER REACHES IT: Primitive<std::string>::decode <- SimplePropCodec::decode_n /
 //      decode_one <- PropertyDecoderT::deserialize / request_property; none of them calls need() for the length word.
-extern "C" void harness_string_as_called() {
+LEN_HARNESS(string_as_called, MAXLEN) {
   SYM_BYTES(bytes, len, MAXLEN)
-  Decoder dec(bytes);
+  DECODER(dec);
   std::string s; int out;
   RUN(out, dec.read(s));
   V_ASSERT(out != OTHER);
@@ -200,25 +221,35 @@ extern "C" void harness_string_as_called() {
 }
 
 // ---- PropertyInfo: reader = read_propdir_chunk(): while (remaining_bytes() > 0) read(reader, prop_info);
-extern "C" void harness_property_info() {
+#ifndef PI_MAX
+#define PI_MAX MAXLEN
+#endif
+// CLS 0: len < 13 (cannot hold an entry), 1: len == 13 (entry with three empty fields), 2: len >= 14
+template <int CLS> static void property_info_body(unsigned len) {
   SYM_BYTES(bytes, len, MAXLEN)
-  Decoder dec(bytes);
+  DECODER(dec);
   PropertyInfo pi; int out;
   RUN(out, read(dec, pi));
   V_ASSERT(out != OTHER);
-  // reference walk (ovmb.ksy propdir_entry): u1 entity, string4 name, string4 type, bytes4 default
+  // reference walk (ovmb.ksy propdir_entry): u1 entity, string4 name, string4 data_type_name, bytes4 serialized_default
   bool ok = len >= 13 && bytes[0] <= 6;
   uint64_t pos = 1, l0 = 0, l1 = 0, l2 = 0;
   if (ok) { l0 = le(bytes, (unsigned)pos, 4); pos += 4; ok = l0 <= len - pos; if (ok) pos += l0; }
   if (ok) { ok = len - pos >= 4; if (ok) { l1 = le(bytes, (unsigned)pos, 4); pos += 4; ok = l1 <= len - pos; if (ok) pos += l1; } }
   if (ok) { ok = len - pos >= 4; if (ok) { l2 = le(bytes, (unsigned)pos, 4); pos += 4; ok = l2 <= len - pos; if (ok) pos += l2; } }
   if (!ok) { V_ASSERT(out == PARSE_ERROR); v_witness("property info: malformed -> parse_error"); return; }
-  if (len < 14) {  // the code demands 14 bytes up front (need(2+3*4)); a 13-byte entry (three empty fields) is refused
-    V_ASSERT(out == PARSE_ERROR); v_witness("property info: 13-byte entry refused (code asks for 14)"); return; }
-  V_ASSERT(out == OK && (uint8_t)pi.entity_type == bytes[0] && pi.name.size() == l0 && pi.data_type_name.size() == l1 && pi.serialized_default.size() == l2 && dec.pos() == pos);
-  unsigned k = v_nondet_below(MAXLEN);
-  if (k < l0) V_ASSERT((uint8_t)pi.name[k] == bytes[5 + k]);
-  if (k < l1) V_ASSERT((uint8_t)pi.data_type_name[k] == bytes[9 + l0 + k]);
-  if (k < l2) V_ASSERT(pi.serialized_default[k] == bytes[13 + l0 + l1 + k]);
-  v_witness("property info: accepted");
+  if constexpr (CLS == 0) { V_ASSERT(false); }
+  else if constexpr (CLS == 1) {  // the code demands 14 bytes up front (need(2+3*4)); the 13-byte entry (three empty fields) is refused
+    V_ASSERT(out == PARSE_ERROR); v_witness("property info: 13-byte entry refused (code asks for 14)"); }
+  else {
+    V_ASSERT(out == OK && (uint8_t)pi.entity_type == bytes[0] && pi.name.size() == l0 && pi.data_type_name.size() == l1 && pi.serialized_default.size() == l2 && dec.pos() == pos);
+    unsigned k = v_nondet_below(MAXLEN);
+    if (k < l0) V_ASSERT((uint8_t)pi.name[k] == bytes[5 + k]);
+    if (k < l1) V_ASSERT((uint8_t)pi.data_type_name[k] == bytes[9 + l0 + k]);
+    if (k < l2) V_ASSERT(pi.serialized_default[k] == bytes[13 + l0 + l1 + k]);
+    v_witness("property info: accepted");
+  }
 }
+LEN_HARNESS_C(property_info_short, 0, 12, 13) { property_info_body<0>(len); }
+LEN_HARNESS_C(property_info_13, 13, 13, 1) { property_info_body<1>(len); }
+LEN_HARNESS_C(property_info, 14, PI_MAX, 1) { property_info_body<2>(len); }   // one length per shard: len = 14 + v_param(0)
